@@ -3,8 +3,8 @@ NOTES = ("All checks are bounded exhaustive explorations of the real implementat
          "finite input-space products (E3), a cooperative scheduler with preemption bounding for the key store (E4) and a "
          "process-level twin/restart driver (E5). Exit codes: 0 held / only known findings, 1 VIOLATION, 2 harness or build error.")
 ENGINES = [
-    {"name": "E1 world", "path": "engine/world", "serves_properties": ["C01","C02","C13"], "kind_free_text": "real app.App under a deterministic driver; BaseApp.VerifFork via build overlay"},
-    {"name": "E2 explore", "path": "engine/explore", "serves_properties": ["C01","C02","C13"], "kind_free_text": "explicit-state depth/deviation-bounded DFS with canonical store hashing, 16 workers, sequential-replay confirmation"},
+    {"name": "E1 world", "path": "engine/world", "serves_properties": ["C01","C02","C03","C04","C05","C11","C13"], "kind_free_text": "real app.App under a deterministic driver; BaseApp.VerifFork via build overlay"},
+    {"name": "E2 explore", "path": "engine/explore", "serves_properties": ["C01","C02","C03","C04","C05","C11","C13"], "kind_free_text": "explicit-state depth/deviation-bounded DFS with canonical store hashing, 16 workers, sequential-replay confirmation"},
 ]
 NOT_CLAIMED = {}
 MC = "model_checking"
@@ -17,3 +17,16 @@ claim("C02", MC, "explicit-state DFS over real ante handler + msg router + refer
 claim("C13", MC, "explicit-state DFS + full pagination request matrix per distinct state", "DESIGN.md §3 C13",
       "AOL graph from the empty state and from a genesis with owners of address length 1/19/21/32/255 and prefix-related topic names; in every distinct state owner/topic counters and the complete pagination matrix (nil, key walk, offset x limit x reverse x count_total) of Topics and Writers are compared with the reference sets.",
       "Owners of unusual length are injected through the real InitChain (they cannot sign).", "E1+E2")
+
+claim("C03", MC, "explicit-state DFS over real DID handlers + reference registry (independent key resolution + secp256k1 verification)", "DESIGN.md §3 C03",
+      "All DID message sequences up to the completed bound over 2 DIDs x 3 keys x 5 document shapes x proof variants (wrong key, demoted key, non-authentication relationship, non-secp256k1 type, wrong sequence, signature over other content), any relayer, plus next-block/restart/export-import; accepted <=> reference registry accepts, rejected => did store byte-identical, store == registry in every state.",
+      "No duplicate verification-method ids in the alphabet; relayer accounts never hold DID keys.", "E1+E2")
+claim("C04", MC, "explicit-state DFS with replay transitions; canonical state includes the multiset of accepted messages", "DESIGN.md §3 C04",
+      "The DID graph extended with Replay(#i): every message accepted earlier on the path is re-submitted (same inner bytes, other relayer) at every later state incl. after further updates, deactivation and control ops; every replay must be rejected; stored and queried sequence equal the reference counter in every state; proofs over seq+-1 are in the alphabet.",
+      "Replays index the first three accepted messages of a path (multiset order).", "E1+E2")
+claim("C05", MC, "explicit-state DFS with restart and export/import placed after every deactivation (V>=2)", "DESIGN.md §3 C05",
+      "DID graph with deviation bound >= 2 so that every deactivated state within the depth bound is also reached through a restart and through genesis export/import; tombstone oracle on store, read operation (NotFound: DID deactivated) and on every later create/update/deactivate.",
+      "Same alphabet as C03 plus a create with an empty-id document.", "E1+E2")
+claim("C11", MC, "explicit-state DFS with did field / document id / payload chosen independently; state invariant doc.id == key", "DESIGN.md §3 C11",
+      "DID graph whose alphabet chooses the did field, the document id and the signed payload independently (direct, authz-Exec wrapped, and Replay(did:=other) of observed accepted messages); invariant in every distinct state: every active entry's document id equals its key and Query/DID(d).document.id == d.",
+      "", "E1+E2")
